@@ -67,6 +67,13 @@ def render_rel(r, rng=None, canonical=False):
         s += (" " if canonical else w()) + "<" + w() + " ".join(("" if en else "!") + n for en, n in g) + w() + ">"
     return s
 
+def pad(text, rng):
+    """operand texts may carry white space around them"""
+    if rng is None: return text
+    if rng.random() < 0.2: text = ws(rng, must=True) + text
+    if rng.random() < 0.3: text = text + ws(rng, must=True)
+    return text
+
 # relation operand specs (see harness/src/s_reledit.rs)
 def ver_spec(v):
     return "-" if v is None else v[0] + "." + hexs(v[1])
@@ -79,7 +86,7 @@ def strs_spec(l):
 
 def rel_spec(r, how, rng=None):
     """how: p parse (random layout), c parse (canonical layout), s/n constructors, b builder, l from lossy"""
-    if how == "p": return "p~" + hexs(render_rel(r, rng))
+    if how == "p": return "p~" + hexs(pad(render_rel(r, rng), rng))
     if how == "c": return "p~" + hexs(render_rel(r, canonical=True))
     if how == "s": return "s~" + hexs(r["name"])
     if how == "n": return "n~" + hexs(r["name"]) + "~" + ver_spec(r["ver"])
@@ -105,7 +112,7 @@ def entry_spec(rels, how, rng=None, rel_how=None):
     """how: P parse, V from vec, E new+push, L from lossy"""
     if how == "P":
         texts = [render_rel(r, rng) for r in rels]
-        return "P" + hexs(join_alts(texts, rng) if rng else " | ".join(texts))
+        return "P" + hexs(pad(join_alts(texts, rng), rng) if rng else " | ".join(texts))
     if how == "L":
         return "L" + ",".join(rel_spec(r, "l") for r in rels)
     pick = (lambda r: rel_how) if rel_how else (lambda r: rng.choice(rel_hows(r)) if rng else "c")
@@ -237,9 +244,11 @@ def op_text(op, e_reg, r_reg):
 ENTRY_LEVEL = ("epush", "ereplace", "eremove_relation", "eremove")
 REL_LEVEL = ("rremove", "set_version", "drop_constraint", "set_archqual", "set_archs", "add_profile")
 
-def compile_programs(init_entries, ops, seed, frozen=False):
-    """-> (p0, p1[, p2], expectations) ; expectations: list of (canon after op | None when the op is
-    outside the list model's domain (index out of range: the API unwraps))"""
+def compile_programs(init_entries, ops, seed, frozen=False, with_marks=False):
+    """-> ([p0, p1(, p2)], expectations[, marks]); expectations[n] = canonical structure after
+    operation n, or None when it is outside the list model's domain (index out of range: the API
+    unwraps); marks[k][m] = n when instruction m of program k is the mutating instruction of
+    operation n (None for the instructions that obtain handles or build operands)"""
     def build(mode):
         m = ListModel(init_entries)
         regs = {}           # node id -> register
@@ -250,28 +259,30 @@ def compile_programs(init_entries, ops, seed, frozen=False):
         def rreg(i):
             if i not in regs: regs[i] = nxt[1]; nxt[1] += 1
             return regs[i]
-        prog = []
-        def obtain_all(only_new=False, known=None):
+        prog = []; marks = []
+        def emit(t, mark=None):
+            prog.append(t); marks.append(mark)
+        def obtain_all(only_new=False):
             for i, e in enumerate(m.entries):
                 new_e = e["id"] not in regs
                 if not only_new or new_e:
-                    prog.append(f"ge/{ereg(e['id'])}/{i}")
+                    emit(f"ge/{ereg(e['id'])}/{i}")
                 for j, r in enumerate(e["rels"]):
                     if not only_new or r["id"] not in regs or new_e:
-                        prog.append(f"gr/{rreg(r['id'])}/{ereg(e['id'])}/{j}")
+                        emit(f"gr/{rreg(r['id'])}/{ereg(e['id'])}/{j}")
         exps = []
         if mode != "fresh":
             obtain_all()
         for n, op in enumerate(ops):
             operand = op_operand_programs(op, seed * 1000 + n)
-            if operand: prog.append(operand)
+            if operand: emit(operand)
             if not m.valid(op):
                 # outside the list model: issue it through whatever is there (fresh handles)
                 k = op[0]
                 if k in ENTRY_LEVEL + REL_LEVEL:
-                    prog.append(f"ge/41/{op[1]}")
-                    if k in REL_LEVEL: prog.append(f"gr/41/41/{op[2]}")
-                prog.append(op_text(op, 41, 41))
+                    emit(f"ge/41/{op[1]}")
+                    if k in REL_LEVEL: emit(f"gr/41/41/{op[2]}")
+                emit(op_text(op, 41, 41), n)
                 exps.append(None)
                 continue
             k = op[0]
@@ -279,26 +290,36 @@ def compile_programs(init_entries, ops, seed, frozen=False):
             if k in ENTRY_LEVEL + REL_LEVEL:
                 e = m.entries[op[1]]
                 if mode == "fresh":
-                    prog.append(f"ge/0/{op[1]}"); e_reg = 0
+                    emit(f"ge/0/{op[1]}"); e_reg = 0
                     if k in REL_LEVEL:
-                        prog.append(f"gr/0/0/{op[2]}"); r_reg = 0
+                        emit(f"gr/0/0/{op[2]}"); r_reg = 0
                 else:
                     e_reg = ereg(e["id"])
                     if k in REL_LEVEL: r_reg = rreg(e["rels"][op[2]]["id"])
-            prog.append(op_text(op, e_reg, r_reg))
+            emit(op_text(op, e_reg, r_reg), n)
             eff = m.apply(op)
             exps.append(m.canon())
             if mode == "earlier":
                 obtain_all(only_new=(eff == ""))
             elif mode == "frozen":
                 obtain_all(only_new=True)
-        return " ".join(prog), exps
-    p0, exps = build("fresh")
-    p1, _ = build("earlier")
-    out = [p0, p1]
+        return " ".join(prog), exps, marks
+    p0, exps, m0 = build("fresh")
+    p1, _, m1 = build("earlier")
+    out = [p0, p1]; marks = [m0, m1]
     if frozen:
-        out.append(build("frozen")[0])
-    return out, exps
+        p2, _, m2 = build("frozen")
+        out.append(p2); marks.append(m2)
+    return (out, exps, marks) if with_marks else (out, exps)
+
+def encode_meta(entries, ops, seed):
+    """the abstract history, for the oracle (the harness and the runner skip this field)"""
+    return hexs(repr({"entries": entries, "ops": ops, "seed": seed}))
+def decode_meta(field):
+    import ast
+    from .core import unhex
+    if field == "-": return None
+    return ast.literal_eval(unhex(field))
 
 # ---------------------------------------------------------------- initial fields
 def init_spec(kind, entries, rng, substvars=False):
@@ -368,7 +389,7 @@ def history_case(rng, cid, kind=None, nops=None, frozen=False):
         if m.valid(op): m.apply(op)
     seed = rng.randrange(1 << 30)
     progs, exps = compile_programs(entries, ops, seed, frozen=frozen)
-    return (cid, ["1", init] + progs), {"entries": entries, "ops": ops, "exps": exps}
+    return (cid, ["1", init, encode_meta(entries, ops, seed)] + progs), {"entries": entries, "ops": ops, "exps": exps}
 
 # the expectations of generated cases, by case id (the oracle needs the abstract history)
 EXPECT = {}
@@ -449,7 +470,7 @@ def small_cases(depth, seeds=None, prefix="x"):
                 progs, exps = compile_programs(entries, list(ops), n)
                 cid = f"{prefix}{n}"; n += 1
                 EXPECT[cid] = {"entries": entries, "ops": list(ops), "exps": exps}
-                out.append((cid, ["1", init] + progs))
+                out.append((cid, ["1", init, encode_meta(entries, list(ops), n)] + progs))
     return out
 
 # ---------------------------------------------------------------- malformed / arbitrary stream
@@ -495,7 +516,7 @@ def any_cases(n, rng, prefix):
                              "rrm": f"rrm/{l}", "sv": f"sv/{l}/" + rng.choice(["-", "ge." + hexs("1"), "lt." + hexs("2.0")]),
                              "dc": f"dc/{l}", "sq": f"sq/{l}/{hexs('any')}", "sa": f"sa/{l}/{hexs('amd64')}",
                              "ap": f"ap/{l}/e{hexs('x')}"}[k])
-        out.append((f"{prefix}{i}", ["0", init, " ".join(prog)]))
+        out.append((f"{prefix}{i}", ["0", init, "-", " ".join(prog)]))
     return out
 
 # ---------------------------------------------------------------- corpus: the repo's tests and the known defects
@@ -539,4 +560,4 @@ def corpus_cases(prefix="k"):
         ("N", "nr/0/s~" + h("samba") + " sa/0/" + h("amd64") + "." + h("i386")),
         ("N", "nr/0/b~" + h("samba") + "~ge." + h("2.0") + "~" + h("any") + "~" + h("amd64") + "." + h("i386") + "~-~-"),
     ]
-    return [(f"{prefix}{i}", ["1", init, prog]) for i, (init, prog) in enumerate(rows)]
+    return [(f"{prefix}{i}", ["1", init, "-", prog]) for i, (init, prog) in enumerate(rows)]
